@@ -164,6 +164,12 @@ var LastPanicMsg string
 
 func panicSite(stack string) string {
 	lines := strings.Split(stack, "\n")
+	// the repository may live elsewhere (VERIF_REPO = a scratch worktree): normalise its root to /repo/
+	if root := strings.TrimRight(os.Getenv("VERIF_REPO"), "/"); root != "" && root != "/repo" {
+		for i := range lines {
+			lines[i] = strings.Replace(lines[i], root+"/", "/repo/", 1)
+		}
+	}
 	for _, l := range lines {
 		l = strings.TrimSpace(l)
 		if i := strings.Index(l, "/repo/"); i >= 0 || strings.Contains(l, "gopacket/") {
